@@ -190,29 +190,38 @@ def fromNonWsUntil (f : List α) (ix : Index) (cs : List Cls) : Except PyErr (Li
 def isWsOrComment (V : View α) (P : PCls) (t : α) : Bool :=
   V.inst t P.ws || V.inst t P.cr || V.inst t P.comment || V.inst t P.blank || V.inst t P.preproc
 
-/-- `vhdlFile.utils.remove_leading_whitespace_and_comments(iToken, lTokens)`: the `for … else`
-    returns `iToken` itself (not `iToken + 1`) when nothing but whitespace / comments is there -/
+/-- `vhdlFile.utils.remove_leading_whitespace_and_comments(iToken, lTokens)`: `lTokens[0]` sits at
+    `iToken + 1`; when nothing but whitespace / comments is there the `for … else` returns the
+    empty list and the position after the trimmed tokens (repaired: it used to return `iToken`
+    itself together with the untrimmed list) -/
 def removeLeading (V : View α) (P : PCls) (i : Int) (l : List α) : Int × List α :=
   match l.findIdx? (fun t => !isWsOrComment V P t) with
   | some k => (i + (k : Int) + 1, l.drop k)
-  | none => (i, l)
+  | none => (i + (l.length : Int) + 1, [])
 
-/-- `vhdlFile.utils.remove_trailing_whitespace_and_comments`: reverses in place and, when nothing but
-    whitespace / comments is there, returns the REVERSED list -/
+/-- `vhdlFile.utils.remove_trailing_whitespace_and_comments`: reverses in place, drops, reverses the
+    copy back; when nothing but whitespace / comments is there the result is the empty list
+    (repaired: it used to return the REVERSED argument) -/
 def removeTrailing (V : View α) (P : PCls) (l : List α) : List α :=
   match l.reverse.findIdx? (fun t => !isWsOrComment V P t) with
   | some k => (l.reverse.drop k).reverse
-  | none => l.reverse
+  | none => []
+
+/-- the body of the loop of `get_if_statement_conditions` for the keyword at `s` and the raw region
+    `tmp0 = lAllTokens[s + 1 : iEnd]`: with `fRemoveWhitespace` a condition that is empty after
+    trimming gets no region (`if len(lTemp) == 0: continue`, before the line is looked up) -/
+def ifRegion (V : View α) (P : PCls) (ix : Index) (rm : Bool) (s : Nat) (tmp0 : List α) : Except PyErr (Option (Toi α)) :=
+  let st : Int × List α :=
+    if rm then ((removeLeading V P s tmp0).1, removeTrailing V P (removeLeading V P s tmp0).2) else ((s : Int) + 1, tmp0)
+  if rm && st.2.isEmpty then pure none
+  else ix.lineOf st.1 >>= fun line => pure (some { start := some st.1, line := line, toks := st.2 })
 
 def ifConditions (V : View α) (P : PCls) (f : List α) (ix : Index) (ifK elsifK thenK : Option Key) (rm : Bool) :
     Except PyErr (List (Toi α)) :=
-  mapE (fun (s : Nat) =>
-    let tmp0 : List α := match ix.tokAfter thenK s with
+  filterMapE (fun (s : Nat) =>
+    ifRegion V P ix rm s (match ix.tokAfter thenK s with
       | some e => pySlice f ((s : Int) + 1) e
-      | none => pySlice f ((s : Int) + 1) f.length
-    let st : Int × List α :=
-      if rm then ((removeLeading V P s tmp0).1, removeTrailing V P (removeLeading V P s tmp0).2) else ((s : Int) + 1, tmp0)
-    ix.lineOf st.1 >>= fun line => pure { start := some st.1, line := line, toks := st.2 })
+      | none => pySlice f ((s : Int) + 1) f.length))
     (sortNat (ix.get ifK ++ ix.get elsifK))
 
 end Vsgm.TM.X
